@@ -27,6 +27,7 @@ public:
   Obj(const string& ns) : AbstractParameterAliasable(ns) {}
   Obj* clone() const override { return new Obj(*this); }
   void add(Parameter* p) { addParameter_(p); }
+  Parameter& par(const std::string& n) { return getParameter_(n); }
   void fireParameterChanged(const ParameterList&) override { fired++; }
 };
 struct PInfo { int ck; double l, u; };           // original constraint of each parameter (0 none, 1 closed interval)
@@ -70,12 +71,61 @@ static double groupValue(Obj& o, const Model& m, int r, const string& tag) {
 extern "C" void verif_harness() {
   ApplicationTools::message = nullptr; ApplicationTools::warning = nullptr; ApplicationTools::error = nullptr;
   int which = __sym_choose("harness", HLO, HHI);
+  if (which == 2) {
+    // ---- constraints of a linked pair: every combination of open/closed ends, symbolic bounds; the pair must accept exactly the values both original constraints accept ----
+    struct I { int ck; bool il, iu; double l, u; } c[2];
+    auto acc = [](const I& k, double x) { if (!k.ck) return true; bool lo = k.il ? (x >= k.l) : (x > k.l), hi = k.iu ? (x <= k.u) : (x < k.u); return lo && hi; };
+    Obj o(""); double v[2];
+    for (int j = 0; j < 2; j++) { c[j].ck = __sym_choose((string(NM[j]) + ".constraint").c_str(), 0, 1);
+#ifdef PAIR_DISTINCT_VALUES
+      v[j] = symd(string("v") + NM[j]);
+#else
+      v[j] = j ? v[0] : symd("v");      // quick tier: both parameters start from one common symbolic value (the constraint logic does not look at it beyond the membership precondition)
+#endif
+
+      if (c[j].ck) { c[j].il = __sym_choose((string(NM[j]) + ".inclLower").c_str(), 0, 1); c[j].iu = __sym_choose((string(NM[j]) + ".inclUpper").c_str(), 0, 1); c[j].l = symd(string("lo") + NM[j]); c[j].u = symd(string("hi") + NM[j]); } }
+    // precondition of the property: the current values lie inside both constraints (so the intersection is not empty)
+    for (int j = 0; j < 2; j++) for (int k = 0; k < 2; k++) SYM_ASSUME(acc(c[k], v[j]));
+    for (int j = 0; j < 2; j++) o.add(c[j].ck ? new Parameter(NM[j], v[j], make_shared<IntervalConstraint>(c[j].l, c[j].u, c[j].il, c[j].iu)) : new Parameter(NM[j], v[j]));
+    int shared = (c[0].ck && c[1].ck) ? __sym_choose("sameObject", 0, 1) : 0;      // both parameters may also hold the very same constraint object
+    if (shared) { o.par(NM[1]).setConstraint(o.par(NM[0]).getConstraint()); c[1] = c[0]; SYM_ASSUME(acc(c[0], v[1])); }
+    bool raised = false; try { o.aliasParameters(NM[0], NM[1]); } catch (Exception&) { raised = true; }
+    SYM_ASSERT(!raised, "a legal alias request between constrained parameters was refused");
+    SYM_ASSERT(o.getParameterValue(NM[0]) == v[0] && o.getParameterValue(NM[1]) == v[1], "linking changed a value");
+    double t = symd("t"); bool both = acc(c[0], t) && acc(c[1], t);
+    for (int j = 0; j < 2; j++) { const Parameter& p = o.parameter(NM[j]);
+      // (an unconstrained alias of a constrained source may stay unconstrained: it only ever receives the source's values)
+      if (c[j].ck || (j == 0 && c[1].ck)) SYM_ASSERT(p.hasConstraint(), "after linking a parameter lost its constraint, or the source did not take over the alias's"); if (!c[0].ck && !c[1].ck) SYM_ASSERT(!p.hasConstraint(), "after linking a parameter carries a constraint although neither had one");
+      if (p.hasConstraint()) SYM_ASSERT(p.getConstraint()->isCorrect(t) == both, "after linking the pair does not accept exactly the values both original constraints accept"); }
+    int tail = __sym_choose("tail", 0, 1);
+#ifndef PAIR_DISTINCT_VALUES
+    if (tail == 1) __sym_prune();    // the un-linking tail runs in the thorough tier
+#endif
+    if (tail == 0) {
+    // an update of the source: accepted iff both original constraints accept it; then both hold it, otherwise nothing changes
+    bool r2 = false; try { o.setParameterValue(NM[0], t); } catch (ConstraintException&) { r2 = true; }
+    bool same = (t == v[0]);
+    if (!same) SYM_ASSERT(r2 == !both, "update of the source: raise condition differs from 'one of the original constraints rejects the value'");
+    if (r2) SYM_ASSERT(o.getParameterValue(NM[0]) == v[0] && o.getParameterValue(NM[1]) == v[1], "a refused update of the source changed a value");
+    else if (!same) SYM_ASSERT(o.getParameterValue(NM[0]) == t && o.getParameterValue(NM[1]) == t, "an accepted update of the source did not reach both parameters");
+    return; }
+    // after un-linking each parameter still refuses what its own original constraint refused
+    o.unaliasParameters(NM[0], NM[1]);
+    double w = symd("w"); for (int j = 0; j < 2; j++) { bool r3 = false; double cur = o.getParameterValue(NM[j]); try { o.setParameterValue(NM[j], w); } catch (ConstraintException&) { r3 = true; }
+      if (!acc(c[j], w) && !(w == cur)) SYM_ASSERT(r3, "after un-linking a parameter accepts a value its own original constraint rejects"); if (r3) SYM_ASSERT(o.getParameterValue(NM[j]) == cur, "a refused update changed the value"); }
+    return;
+  }
   int n = NPAR;
   int nsInit = __sym_choose("namespace", 0, 1);
   Model m; m.n = n; m.from.assign(n, -1); m.synced.assign(n, false); m.ns = nsInit ? "N." : ""; m.c.resize(n); m.eff.resize(n);
   unique_ptr<Obj> holder(new Obj(m.ns)); Obj* o = holder.get();
   for (int j = 0; j < n; j++) { double v = symd(string("v") + NM[j]); SYM_ASSUME(v > 0);
-    m.c[j].ck = __sym_choose((string(NM[j]) + ".constraint").c_str(), 0, CKMAX); m.c[j].l = m.c[j].u = 0; if (m.c[j].ck) m.eff[j].push_back(j);
+#ifdef UNCONSTRAINED_LAST
+    m.c[j].ck = (j == n - 1) ? 0 : __sym_choose((string(NM[j]) + ".constraint").c_str(), 0, CKMAX);    // quick tier of the 3-call histories: the last parameter carries no constraint
+#else
+    m.c[j].ck = __sym_choose((string(NM[j]) + ".constraint").c_str(), 0, CKMAX);
+#endif
+ m.c[j].l = m.c[j].u = 0; if (m.c[j].ck) m.eff[j].push_back(j);
     if (m.c[j].ck) { m.c[j].l = symd(string("lo") + NM[j]); m.c[j].u = symd(string("hi") + NM[j]); SYM_ASSUME(inside(m.c[j], v)); o->add(new Parameter(m.ns + NM[j], v, make_shared<IntervalConstraint>(m.c[j].l, m.c[j].u, true, true))); }
     else o->add(new Parameter(m.ns + NM[j], v)); }
   checkState(*o, m, "initial");
